@@ -253,3 +253,100 @@ pub fn probe_mv() {
     reach!("q0");
     std::mem::forget(t); std::mem::forget(m);
 }
+/// @harness id=probe_seedcmp props=PROBE unwind=18 mem=8 cap=600 unwindset=memchr_seq:400;memchr_bytewise:64;sip:48
+/// seed C_F then compare with fresh (no analysis)
+#[cfg_attr(kani, kani::proof)]
+#[cfg_attr(kani, kani::stub(std::path::Path::canonicalize, crate::stubs::canonicalize_err))]
+#[cfg_attr(kani, kani::stub(core::slice::memchr::memchr, crate::stubs::memchr_bytewise))]
+pub fn probe_seedcmp() {
+    use crate::h_hist::*; use crate::oracle::*;
+    let db = FixtureDatabase::new();
+    let first = fresh_c_f(PC);
+    seed_file_state(&db, PC, T_C_F, &first);
+    let ok = file_state_is(&db, PC, &first, true);
+    assert!(ok);
+    reach!("q0");
+    std::mem::forget(first); std::mem::forget(db);
+}
+/// @harness id=probe_seedonly props=PROBE unwind=18 mem=8 cap=600 unwindset=memchr_seq:400;memchr_bytewise:64;sip:48
+/// seed C_F only
+#[cfg_attr(kani, kani::proof)]
+#[cfg_attr(kani, kani::stub(std::path::Path::canonicalize, crate::stubs::canonicalize_err))]
+#[cfg_attr(kani, kani::stub(core::slice::memchr::memchr, crate::stubs::memchr_bytewise))]
+pub fn probe_seedonly() {
+    use crate::h_hist::*; use crate::oracle::*;
+    let db = FixtureDatabase::new();
+    let first = fresh_c_f(PC);
+    seed_file_state(&db, PC, T_C_F, &first);
+    assert!(db.definitions.len() == 1);
+    reach!("q0");
+    std::mem::forget(first); std::mem::forget(db);
+}
+macro_rules! pr_arm {
+    ($id:ident, $body:expr) => {
+        #[cfg_attr(kani, kani::proof)]
+        #[cfg_attr(kani, kani::stub(rustpython_parser::parse, crate::oracle::oracle_parse_hist))]
+        #[cfg_attr(kani, kani::stub(std::path::Path::canonicalize, crate::stubs::canonicalize_err))]
+        #[cfg_attr(kani, kani::stub(std::path::Path::exists, crate::stubs::path_exists_false))]
+        #[cfg_attr(kani, kani::stub(std::hash::RandomState::new, crate::stubs::fixed_random_state))]
+        #[cfg_attr(kani, kani::stub(core::slice::memchr::memchr, crate::stubs::memchr_bytewise))]
+        pub fn $id() { $body }
+    };
+}
+/// @harness id=probe_parse_disc props=PROBE unwind=18 mem=8 cap=600
+/// discriminant of the oracle's Result
+pr_arm!(probe_parse_disc, {
+    let r = rustpython_parser::parse(crate::oracle::T_C_BAD, rustpython_parser::Mode::Module, "");
+    match &r { Ok(_) => { reach!("m1"); } Err(_) => { reach!("m2"); } }
+    std::mem::forget(r);
+});
+/// @harness id=probe_an_bad props=PROBE unwind=18 mem=8 cap=900 unwindset=memchr_seq:400;memchr_bytewise:64;sip:48;rec~ParseErrorType:3;rec~LexicalErrorType:3;rec~FStringErrorType:3
+/// analyze_file on the unparsable text only
+pr_arm!(probe_an_bad, {
+    let db = FixtureDatabase::new();
+    db.analyze_file(PathBuf::from(crate::h_hist::PC), crate::oracle::T_C_BAD);
+    assert!(db.definitions.len() == 0);
+    reach!("q0");
+    std::mem::forget(db);
+});
+/// @harness id=probe_an_f props=PROBE unwind=18 mem=8 cap=900 unwindset=memchr_seq:400;memchr_bytewise:64;sip:48;rec~ParseErrorType:3;rec~LexicalErrorType:3;rec~FStringErrorType:3
+/// analyze_file on C_F only
+pr_arm!(probe_an_f, {
+    let db = FixtureDatabase::new();
+    db.analyze_file(PathBuf::from(crate::h_hist::PC), crate::oracle::T_C_F);
+    assert!(db.definitions.len() == 1);
+    reach!("q0");
+    std::mem::forget(db);
+});
+fn like_analyze(content: &str) -> usize {
+    let parsed = match rustpython_parser::parse(content, rustpython_parser::Mode::Module, "") {
+        Ok(ast) => ast,
+        Err(_e) => { return 0; }
+    };
+    let n = if let rustpython_parser::ast::Mod::Module(m) = parsed { m.body.len() } else { 77 };
+    n + 1
+}
+/// @harness id=probe_like_analyze props=PROBE unwind=18 mem=8 cap=600 unwindset=rec~ParseErrorType:3;rec~LexicalErrorType:3;rec~FStringErrorType:3
+/// the repo's match-by-value on the oracle's Result
+pr_arm!(probe_like_analyze, {
+    let n = like_analyze(crate::oracle::T_C_BAD);
+    if n == 0 { reach!("m2"); } else { reach!("m1"); }
+});
+fn pv(text: &str, forget: bool) -> usize {
+    match rustpython_parser::parse(text, rustpython_parser::Mode::Module, "") {
+        Ok(ast) => { let n = if let rustpython_parser::ast::Mod::Module(m) = &ast { m.body.len() } else { 77 }; if forget { std::mem::forget(ast); } n + 1 }
+        Err(e) => { if forget { std::mem::forget(e); } 0 }
+    }
+}
+/// @harness id=probe_pv_bad_forget props=PROBE unwind=18 mem=8 cap=300 unwindset=rec~ParseErrorType:3;rec~LexicalErrorType:3;rec~FStringErrorType:3
+/// by-value match, unparsable, forget
+pr_arm!(probe_pv_bad_forget, { let n = pv(crate::oracle::T_C_BAD, true); assert!(n == 0); reach!("q0"); });
+/// @harness id=probe_pv_bad_drop props=PROBE unwind=18 mem=8 cap=300 unwindset=rec~ParseErrorType:3;rec~LexicalErrorType:3;rec~FStringErrorType:3
+/// by-value match, unparsable, normal drop
+pr_arm!(probe_pv_bad_drop, { let n = pv(crate::oracle::T_C_BAD, false); assert!(n == 0); reach!("q0"); });
+/// @harness id=probe_pv_f_forget props=PROBE unwind=18 mem=8 cap=300 unwindset=rec~ParseErrorType:3;rec~LexicalErrorType:3;rec~FStringErrorType:3
+/// by-value match, C_F, forget
+pr_arm!(probe_pv_f_forget, { let n = pv(crate::oracle::T_C_F, true); assert!(n == 3); reach!("q0"); });
+/// @harness id=probe_pv_f_drop props=PROBE unwind=18 mem=8 cap=300 unwindset=rec~ParseErrorType:3;rec~LexicalErrorType:3;rec~FStringErrorType:3
+/// by-value match, C_F, normal drop
+pr_arm!(probe_pv_f_drop, { let n = pv(crate::oracle::T_C_F, false); assert!(n == 3); reach!("q0"); });
